@@ -882,3 +882,73 @@ Example c06_join_nonvacuous :
   = [(1, GF.KTs, [2; 3; 3; 3; 3; 3]); (2, GF.KRtsp, [4; 50; 50])]
   /\ map te_boundary (RFP.fo_ts_evs outs) = [true; false; true; false; false].
 Proof. vm_compute. split; reflexivity. Qed.
+
+(* ======================================================================== *)
+(* (8) HLS AT EVERY INSTANT, under the group's wiring (hls.Muxer as observer of
+   the remuxer, FlushAudio re-entering it from inside openFragment).  The file
+   system operations of hls.Muxer over ANY sequence of events form a chain of
+   C10's invariant from Muxer.Start on (RemuxHlsObsProofs / RemuxHlsRunProofs:
+   the observer version is closeFragment / openFragment / FeedMpegts / the
+   duration update / the write of C10 composed, so C10's step lemmas compose),
+   hence C10's trace theorems hold of every prefix of them - not of the final
+   state only; since any prefix of the events is itself a sequence of events,
+   c06_hls_group holds after every event as well. *)
+From Lal Require Hls.HlsInv Hls.HlsParse Hls.HlsFs Hls.HlsRunProofs Remux.RemuxHlsRunProofs.
+Module RHR := Lal.Remux.RemuxHlsRunProofs.
+
+(* C10's c10_inv_every_prefix: after EVERY operation the live play list (if there is one) is the text of a
+   structured play list that parses back to it, lists only segments whose files exist, are closed, are whole TS
+   packets and begin with PAT/PMT, with durations that round to at most the target duration *)
+Theorem c06_hls_live_ok_every_instant : forall c evs x g outs k,
+  HlsInv.cfg_ok c -> g_run c remuxer_init (g_init c true) evs = (x, g, outs) -> Forall msg_ok (RHR.gmsgs evs) ->
+  exists h, g_hls g = Some h /\ live_ok c (HlsFs.apply_all [] (firstn k (h_ops h))).
+Proof.
+  intros c evs x g outs k Hc H Hm. destruct (RHR.group_hls_chain c Hc evs x g outs H Hm) as (h & Hh & Hch).
+  exists h. split; [exact Hh|]. exact (RHR.chain_live_ok c (h_ops h) (h_mux h) Hc Hch k).
+Qed.
+Print Assumptions c06_hls_live_ok_every_instant.
+
+(* C10's c10_parsed_playlist_consistent, in terms of the parse result alone *)
+Theorem c06_hls_parsed_every_instant : forall c evs x g outs k,
+  HlsInv.cfg_ok c -> g_run c remuxer_init (g_init c true) evs = (x, g, outs) -> Forall msg_ok (RHR.gmsgs evs) ->
+  exists h, g_hls g = Some h /\
+    let s := HlsFs.apply_all [] (firstn k (h_ops h)) in
+    forall f t, HlsFs.fs_lookup HlsFs.PLive s = Some f -> HlsParse.parse_live (HlsFs.fdata f) = Some t ->
+    forall ts, In ts (HlsParse.t_segs t) ->
+      ((HlsParse.t_ms ts + 500) / 1000 <= HlsParse.t_target t)%Z /\
+      exists sg, HlsParse.t_uri ts = HlsPlaylist.seg_name (c_stream c) sg /\ seg_file_ok s sg.
+Proof.
+  intros c evs x g outs k Hc H Hm. destruct (RHR.group_hls_chain c Hc evs x g outs H Hm) as (h & Hh & Hch).
+  exists h. split; [exact Hh|]. intros s f t. exact (RHR.chain_parsed c (h_ops h) (h_mux h) Hc Hch k f t).
+Qed.
+Print Assumptions c06_hls_parsed_every_instant.
+
+(* C10's c10_media_sequence_monotone: between any two instants EXT-X-MEDIA-SEQUENCE does not decrease *)
+Theorem c06_hls_media_sequence_monotone : forall c evs x g outs j k,
+  HlsInv.cfg_ok c -> g_run c remuxer_init (g_init c true) evs = (x, g, outs) -> Forall msg_ok (RHR.gmsgs evs) ->
+  (j <= k)%nat ->
+  exists h, g_hls g = Some h /\
+    forall fj fk tj tk,
+    HlsRunProofs.no_removeall (skipn j (firstn k (h_ops h))) ->
+    HlsFs.fs_lookup HlsFs.PLive (HlsFs.apply_all [] (firstn j (h_ops h))) = Some fj ->
+    HlsFs.fs_lookup HlsFs.PLive (HlsFs.apply_all [] (firstn k (h_ops h))) = Some fk ->
+    HlsParse.parse_live (HlsFs.fdata fj) = Some tj -> HlsParse.parse_live (HlsFs.fdata fk) = Some tk ->
+    (HlsParse.t_seq tj <= HlsParse.t_seq tk)%Z.
+Proof.
+  intros c evs x g outs j k Hc H Hm Hjk. destruct (RHR.group_hls_chain c Hc evs x g outs H Hm) as (h & Hh & Hch).
+  exists h. split; [exact Hh|]. intros fj fk tj tk HN. exact (RHR.chain_media_sequence c (h_ops h) (h_mux h) Hc Hch j k fj fk tj tk Hjk HN).
+Qed.
+Print Assumptions c06_hls_media_sequence_monotone.
+
+(* ... and c06_hls_group after every event: the frame data written to the segment files so far are, callback by
+   callback from the first boundary frame on, the handed-over audio frames followed by the frame itself *)
+Theorem c06_hls_no_loss_every_instant : forall c evs x g outs,
+  g_run c remuxer_init (g_init c true) evs = (x, g, outs) ->
+  exists h, g_hls g = Some h /\ fst (fws false (h_ops h)) = written false (parse_cbs [] outs).
+Proof.
+  intros c evs x g outs H.
+  assert (Hi0 : hinv (g_init c true) [] false) by (eexists; split; [reflexivity|]; split; reflexivity).
+  destruct (g_run_hinv c evs _ _ _ _ _ _ _ Hi0 H) as (cbs & -> & F & (h & Hh & Hw & _)).
+  exists h. split; [exact Hh|]. rewrite Hw. cbn [fst app]. now rewrite parse_cb_outs.
+Qed.
+Print Assumptions c06_hls_no_loss_every_instant.
